@@ -22,19 +22,26 @@ theorem removedMem_apply (mem : Mem) (n : Name) (pp : Path) (pm : MNode) (p : Pa
 theorem mem_filter_ne {l : List Name} {n x : Name} : x ∈ l.filter (· != n) ↔ x ∈ l ∧ x ≠ n := by
   simp [List.mem_filter]
 
-/-- (γ) generic re-establishment of the invariant -/
-theorem consistent_removeChild {s : St} (hc : Consistent s) {L : Layer} (hup : s.disk.upper = some L)
-    (n : Name) (pp : Path) (X : Node) {pm : MNode} (hpm : s.mem pp = some pm)
-    (hstep : HostStep L (L.set (n :: pp) X))
-    (H : needsNode (localExp (s.disk.setUpper (n :: pp) X) pm n) = false)
+/-- (γ) generic re-establishment of the invariant; the upper layer may change anywhere inside the
+    subtree at `n :: pp` (which leaves the forest) -/
+theorem consistent_removeChild_gen {s : St} (hc : Consistent s) {L L' : Layer} (hup : s.disk.upper = some L)
+    (n : Name) (pp : Path) {pm : MNode} (hpm : s.mem pp = some pm)
+    (hout : ∀ p, (n :: pp).isSuffixOf p = false → L' p = L p) (htree : TreeOK L')
+    (H : needsNode (localExp (s.disk.setLayer 0 L') pm n) = false)
     (log' : List Call) :
-    Consistent { s with disk := s.disk.setUpper (n :: pp) X, mem := removedMem s.mem n pp pm, log := log' } := by
+    Consistent { s with disk := s.disk.setLayer 0 L', mem := removedMem s.mem n pp pm, log := log' } := by
   have hl := hc.toLocal
-  have hu : s.disk.upper.isSome := by rw [hup]; rfl
-  have hd' : s.disk.setUpper (n :: pp) X = s.disk.setLayer 0 (L.set (n :: pp) X) := by
-    simp [Disk.setUpper, hup]
-  have hroot0 : ∀ i, (s.disk.setUpper (n :: pp) X).nodeAt i [] = s.disk.nodeAt i [] := fun i =>
-    nodeAt_setUpper_ne _ _ X hu i [] (fun h => by cases h.2)
+  have hroot0 : ∀ i, (s.disk.setLayer 0 L').nodeAt i [] = s.disk.nodeAt i [] := by
+    intro i
+    rw [nodeAt_setLayer0]
+    split
+    · rename_i hi
+      rw [hi, hout [] (by simp [List.isSuffixOf])]
+      simp [Disk.nodeAt, Disk.layer, hup]
+    · rfl
+  have hidx : (s.disk.setLayer 0 L').indices = s.disk.indices := by
+    simp [Disk.setLayer, Disk.indices, hup]
+  have hnpp : (n :: pp).isSuffixOf pp = false := not_below_parent n pp
   have hq_ne_pp : n :: pp ≠ pp := cons_ne_self n pp
   have hget : ∀ p m0, removedMem s.mem n pp pm p = some m0 →
       (p = pp ∧ m0 = { pm with kids := pm.kids.filter (· != n) }) ∨
@@ -50,23 +57,22 @@ theorem consistent_removeChild {s : St} (hc : Consistent s) {L : Layer} (hup : s
   apply LConsistent.toConsistent
   refine ⟨?_, ?_, ?_, ?_, ?_, ?_, ?_, ?_, ?_⟩
   · intro i hi
-    show ((s.disk.setUpper (n :: pp) X).nodeAt i []).isDir = true
+    show ((s.disk.setLayer 0 L').nodeAt i []).isDir = true
     rw [hroot0]
-    exact hl.roots i (by rw [← indices_setUpper s.disk (n :: pp) X]; exact hi)
+    exact hl.roots i (by rw [← hidx]; exact hi)
   · intro i Li hLi
     show TreeOK Li
-    rw [hd'] at hLi
     cases i with
     | zero =>
       simp only [Disk.layer, Disk.setLayer, Option.some.injEq] at hLi
       subst hLi
-      exact hstep.2 (hl.trees 0 L hup)
+      exact htree
     | succ j => exact hl.trees (j + 1) Li (by simpa [Disk.layer, Disk.setLayer] using hLi)
   · -- root
     obtain ⟨m0, hm0, hr0⟩ := hl.root
-    have hrr : (s.disk.setUpper (n :: pp) X).indices.map (rootReal (s.disk.setUpper (n :: pp) X)) =
+    have hrr : (s.disk.setLayer 0 L').indices.map (rootReal (s.disk.setLayer 0 L')) =
         s.disk.indices.map (rootReal s.disk) := by
-      rw [indices_setUpper]
+      rw [hidx]
       apply List.map_congr_left
       intro i _
       simp [rootReal, hroot0]
@@ -86,7 +92,7 @@ theorem consistent_removeChild {s : St} (hc : Consistent s) {L : Layer} (hup : s
         rw [hrr]; exact hr0
   · -- child
     intro p' pm' n' c hpm' hc'
-    show RealsLike c.reals (localExp (s.disk.setUpper (n :: pp) X) pm' n')
+    show RealsLike c.reals (localExp (s.disk.setLayer 0 L') pm' n')
     rcases hget _ _ hc' with ⟨h1, h2⟩ | ⟨h1, h3, h4⟩
     · -- the child is the parent node `pp`
       rcases hget _ _ hpm' with ⟨g1, _⟩ | ⟨g1, g3, g4⟩
@@ -98,21 +104,21 @@ theorem consistent_removeChild {s : St} (hc : Consistent s) {L : Layer} (hup : s
           have := congrArg List.length h1
           simp at this
           omega
-        rw [localExp_agree s.disk _ pm' n' (agree_setUpper hc _ X hu g4 n' g2 (by rw [h1]; exact hq_ne_pp.symm))]
+        rw [localExp_agree s.disk _ pm' n' (agree_outside hc hup _ hout g4 n' g3 (by rw [h1]; exact hnpp))]
         exact hl.child p' pm' n' pm g4 (by rw [h1]; exact hpm)
     · have h2 : n' :: p' ≠ n :: pp := by
         intro h; rw [h, below_self] at h3; cases h3
       rcases hget _ _ hpm' with ⟨g1, g2⟩ | ⟨g1, g3, g4⟩
       · subst g1
         rw [g2]
-        show RealsLike c.reals (localExp (s.disk.setUpper (n :: p') X) pm n')
-        rw [localExp_agree s.disk _ pm n' (agree_setUpper hc _ X hu hpm n' hq_ne_pp.symm h2)]
+        show RealsLike c.reals (localExp (s.disk.setLayer 0 L') pm n')
+        rw [localExp_agree s.disk _ pm n' (agree_outside hc hup _ hout hpm n' hnpp h3)]
         exact hl.child p' pm n' c hpm h4
       · have g2 : p' ≠ n :: pp := by
           intro h
           rw [h] at h3
           rw [below_of_below n' (below_self (n :: pp))] at h3; cases h3
-        rw [localExp_agree s.disk _ pm' n' (agree_setUpper hc _ X hu g4 n' g2 h2)]
+        rw [localExp_agree s.disk _ pm' n' (agree_outside hc hup _ hout g4 n' g3 h3)]
         exact hl.child p' pm' n' c g4 h4
   · -- wh
     intro p m0 hm0
@@ -121,21 +127,21 @@ theorem consistent_removeChild {s : St} (hc : Consistent s) {L : Layer} (hup : s
     · exact hl.wh p m0 h4
   · -- kidsLoaded
     intro p m0 hm0 hlo n'
-    show (n' ∈ m0.kids → localExp (s.disk.setUpper (n :: pp) X) m0 n' ≠ []) ∧
-      (needsNode (localExp (s.disk.setUpper (n :: pp) X) m0 n') = true → n' ∈ m0.kids)
+    show (n' ∈ m0.kids → localExp (s.disk.setLayer 0 L') m0 n' ≠ []) ∧
+      (needsNode (localExp (s.disk.setLayer 0 L') m0 n') = true → n' ∈ m0.kids)
     rcases hget _ _ hm0 with ⟨h1, h2⟩ | ⟨h1, h3, h4⟩
     · subst h1
       rw [h2]
       have hlo' : pm.loaded = true := by rw [h2] at hlo; exact hlo
-      show (n' ∈ pm.kids.filter (· != n) → localExp (s.disk.setUpper (n :: p) X) pm n' ≠ []) ∧
-        (needsNode (localExp (s.disk.setUpper (n :: p) X) pm n') = true → n' ∈ pm.kids.filter (· != n))
+      show (n' ∈ pm.kids.filter (· != n) → localExp (s.disk.setLayer 0 L') pm n' ≠ []) ∧
+        (needsNode (localExp (s.disk.setLayer 0 L') pm n') = true → n' ∈ pm.kids.filter (· != n))
       by_cases hn : n' = n
       · subst hn
         refine ⟨fun h => ?_, fun h => ?_⟩
         · exact absurd rfl (mem_filter_ne.1 h).2
         · rw [H] at h; cases h
       · have hne : n' :: p ≠ n :: p := by intro h; injection h with h; exact hn h
-        rw [localExp_agree s.disk _ pm n' (agree_setUpper hc _ X hu hpm n' hq_ne_pp.symm hne)]
+        rw [localExp_agree s.disk _ pm n' (agree_outside hc hup _ hout hpm n' hnpp (not_below_child hnpp hne))]
         have := hl.kidsLoaded p pm hpm hlo' n'
         exact ⟨fun h => this.1 (mem_filter_ne.1 h).1, fun h => mem_filter_ne.2 ⟨this.2 h, hn⟩⟩
     · have hne : n' :: p ≠ n :: pp := by
@@ -144,7 +150,7 @@ theorem consistent_removeChild {s : St} (hc : Consistent s) {L : Layer} (hup : s
         exact h1 this
       have g2 : p ≠ n :: pp := by
         intro h; rw [h, below_self] at h3; cases h3
-      rw [localExp_agree s.disk _ m0 n' (agree_setUpper hc _ X hu h4 n' g2 hne)]
+      rw [localExp_agree s.disk _ m0 n' (agree_outside hc hup _ hout h4 n' h3 (not_below_child h3 hne))]
       exact hl.kidsLoaded p m0 h4 hlo n'
   · -- kidsMem
     intro p m0 n' hm0 hn'
@@ -219,5 +225,22 @@ theorem consistent_removeChild {s : St} (hc : Consistent s) {L : Layer} (hup : s
           | false => rfl
           | true => rw [below_of_below n' hb] at h3; cases h3
         rw [this]; simpa using hpm2
+
+/-- (γ) for a point update of the upper layer -/
+theorem consistent_removeChild {s : St} (hc : Consistent s) {L : Layer} (hup : s.disk.upper = some L)
+    (n : Name) (pp : Path) (X : Node) {pm : MNode} (hpm : s.mem pp = some pm)
+    (hstep : HostStep L (L.set (n :: pp) X))
+    (H : needsNode (localExp (s.disk.setUpper (n :: pp) X) pm n) = false)
+    (log' : List Call) :
+    Consistent { s with disk := s.disk.setUpper (n :: pp) X, mem := removedMem s.mem n pp pm, log := log' } := by
+  have hd' : s.disk.setUpper (n :: pp) X = s.disk.setLayer 0 (L.set (n :: pp) X) := by
+    simp [Disk.setUpper, hup]
+  rw [hd'] at H ⊢
+  refine consistent_removeChild_gen hc hup n pp hpm (fun p hp => ?_) (hstep.2 (hc.trees 0 L hup)) H log'
+  simp only [Layer.set]
+  rw [if_neg]
+  intro h
+  rw [h, below_self] at hp
+  cases hp
 
 end Fbr.Ovl
